@@ -188,6 +188,76 @@ def run(ctx) -> None:
     r1.check("Transform(**d)" in norm(tfd.node), "transform_from_dict rebuilds Transform(**d)", tfd, tfd.node,
              "transform_from_dict no longer rebuilds the Transform from the saved dictionary", stmt="Transform(**d)")
 
+    # save → from_npz: the loader counts the energy arrays by enumerating the stored `E_titles`, the writer stores one array per element of
+    # self.Energies: they agree only if __init__ makes len(self.E_titles) == N_energies on every path (truncate AND pad)
+    er_c = idx.cls(ER, "EnergyResult")
+    rdn = er_c.methods.get("from_npz")
+    ini_e = er_c.methods.get("__init__")
+    counts_by_titles = any(isinstance(lc, (ast.ListComp, ast.GeneratorExp)) and any("E_titles" in norm(g_.iter) for g_ in lc.generators)
+                           and "Energies_" in norm(lc.elt) for lc in ast.walk(rdn.node))
+    if counts_by_titles:
+        from ..algebra import Rat, to_rat
+        IS_ = Sem(idx, ini_e)
+        IS_.inline_helpers = False
+        tstores = [s_ for s_ in stmts(ini_e.node) if isinstance(s_, ast.Assign) and len(s_.targets) == 1 and norm(s_.targets[0]) == "self.E_titles"]
+        r1.expect(bool(tstores), "E_titles store located", ini_e, ini_e.node, "EnergyResult.__init__: no assignment to self.E_titles found")
+        tparam = next((p_ for p_ in ini_e.params if p_ == "E_titles"), "E_titles")
+
+        def lenv(x):
+            t_ = norm(x).replace(" ", "")
+            if t_ in ("self.N_energies", "len(Energies)", "len(self.Energies)"):
+                return Rat.sym("N")
+            if t_ == f"len({tparam})":
+                return Rat.sym("L")
+            return None
+
+        def abs_len(e_, at_, conds_):
+            """length of a list expression as a Rat in N (number of energy axes) and L (number of titles given); None if unknown"""
+            if isinstance(e_, ast.Name):
+                return Rat.sym("L") if e_.id == tparam else None
+            if isinstance(e_, ast.Call) and call_name(e_) in ("list", "tuple") and e_.args:
+                return abs_len(e_.args[0], at_, conds_)
+            if isinstance(e_, ast.List):
+                return Rat.const(len(e_.elts))
+            if isinstance(e_, ast.BinOp) and isinstance(e_.op, ast.Add):
+                a_, b_ = abs_len(e_.left, at_, conds_), abs_len(e_.right, at_, conds_)
+                return None if a_ is None or b_ is None else a_ + b_
+            if isinstance(e_, ast.BinOp) and isinstance(e_.op, ast.Mult):
+                for l_, k_ in ((e_.left, e_.right), (e_.right, e_.left)):
+                    ll = abs_len(l_, at_, conds_) if isinstance(l_, (ast.List, ast.Name, ast.Call)) else None
+                    if ll is not None:
+                        try:
+                            return ll * to_rat(k_, lenv)
+                        except AnalysisError:
+                            return None
+            if isinstance(e_, ast.Subscript) and isinstance(e_.slice, ast.Slice) and e_.slice.lower is None and e_.slice.step is None and e_.slice.upper is not None:
+                base_ = abs_len(e_.value, at_, conds_)
+                try:
+                    up_ = to_rat(e_.slice.upper, lenv)
+                except AnalysisError:
+                    return None
+                if base_ is None:
+                    return None
+                # min(base, upper): decided by the path conditions
+                if ("N<=L", True) in conds_ or ("L>=N", True) in conds_ or ("N>L", False) in conds_ or ("L<N", False) in conds_:
+                    return up_ if base_.equals(Rat.sym("L")) and up_.equals(Rat.sym("N")) else None
+                return "min"
+            return None
+        for s_ in tstores:
+            cds = []
+            for t_, p_, n_ in IS_.conditions(s_, resolve=False):
+                tt = t_.replace(" ", "").replace("self.N_energies", "N").replace(f"len({tparam})", "L")
+                cds.append((tt, p_))
+            ln_ = abs_len(s_.value, IS_.cfg.node(s_), cds)
+            r1.instance(f"{ini_e.short}: {norm1(s_, 70)}")
+            if ln_ is None:
+                r1.expect(False, "", ini_e, s_, f"EnergyResult.__init__: cannot determine the length of `{norm1(s_.value, 70)}`")
+            else:
+                r1.check(ln_ != "min" and ln_.equals(Rat.sym("N")), "len(self.E_titles) == N_energies on this path", ini_e, s_,
+                         f"`{norm1(s_, 80)}` leaves self.E_titles with {'min(len(E_titles), N_energies)' if ln_ == 'min' else ln_} entries instead of N_energies: as_dict "
+                         f"stores one energy array per axis but from_npz loads one per stored title, so a saved result with fewer titles than energy axes "
+                         f"comes back with missing energy axes")
+
     # ---------------------------------------------------------------- R16.2
     r2 = ctx.rule("R16.2", "arithmetic / transform keep every carried field", min_instances=8)
     carried = {"EnergyResult": ["Energies", "smoothers", "transformTR", "transformInv", "rank", "E_titles", "save_mode"],
@@ -289,15 +359,32 @@ def run(ctx) -> None:
     k = idx.cls(KB, "K__Result")
     r3.instance("K__Result")
     import re as _re
-    KM = Sem(idx, k.methods["__mul__"])
+    kmul = inline_private_helpers(idx, k.methods["__mul__"])
+    KM = Sem(idx, kmul)
     okkm = False
-    for cc in _ctor_calls(k.methods["__mul__"]):
+    for cc in _ctor_calls(kmul):
         dv = next((kk.value for kk in cc.keywords if kk.arg == "data"), cc.args[0] if cc.args else None)
         if dv is not None:
             el_ = KM.element(dv, KM.du.node_of_expr(cc))
-            okkm = okkm or (el_ is not None and _re.sub(r"IT\d+_\d+", "I", norm(el_)) in (f"self.data_list[I] * {k.methods['__mul__'].params[1]}", f"{k.methods['__mul__'].params[1]} * self.data_list[I]"))
-    r3.check(okkm, "K__Result.__mul__ scales every block", k.methods["__mul__"],
-             k.methods["__mul__"].node, "K__Result.__mul__ does not scale every data block", stmt="K mul")
+            okkm = okkm or (el_ is not None and _re.sub(r"IT\d+_\d+", "I", norm(el_)) in (f"self.data_list[I] * {kmul.params[1]}", f"{kmul.params[1]} * self.data_list[I]"))
+    r3.check(okkm, "K__Result.__mul__ scales every block", kmul,
+             kmul.node, "K__Result.__mul__ does not scale every data block", stmt="K mul")
+    kma = inline_private_helpers(idx, k.methods["mul_array"])
+    KMA = Sem(idx, kma)
+    okkma = False
+    what_kma = "?"
+    for cc in _ctor_calls(kma):
+        dv = next((kk.value for kk in cc.keywords if kk.arg == "data"), cc.args[0] if cc.args else None)
+        if dv is not None:
+            el_ = KMA.element(dv, KMA.du.node_of_expr(cc))
+            what_kma = norm1(KMA.resolve(dv, KMA.du.node_of_expr(cc)), 80)
+            if el_ is not None:
+                t_ = _re.sub(r"IT\d+_\d+", "I", norm(el_))
+                okkma = okkma or bool(_re.fullmatch(rf"self\.data_list\[I\] \* {kma.params[1]}\.reshape\(.*\)", t_)) or \
+                    bool(_re.fullmatch(rf"{kma.params[1]}\.reshape\(.*\) \* self\.data_list\[I\]", t_))
+    r3.check(okkma, "K__Result.mul_array scales every k-block", kma, kma.node,
+             f"K__Result.mul_array builds its data as `{what_kma}`: not every block of data_list multiplied by the reshaped array — for a result joined from "
+             f"several k-blocks the other blocks are dropped", stmt="K mul_array")
     kadd = k.methods["add"]
     KA = Sem(idx, kadd)
     ko = kadd.params[1]
@@ -311,7 +398,7 @@ def run(ctx) -> None:
             lp_ = enclosing(KA.pm, st_, ast.For)
             okka = lp_ is not None and norm(st_.value) == f"{ko}.data_list[{norm(st_.target.slice)}]"
     r3.check(okka, "K__Result.add is element-wise", kadd, kadd.node, "K__Result.add is not element-wise", stmt="K add")
-    ksub = k.methods["__sub__"]
+    ksub = inline_private_helpers(idx, k.methods["__sub__"])
     KS2 = Sem(idx, ksub)
     oksub = False
     for cc in _ctor_calls(ksub):
@@ -439,6 +526,10 @@ def run(ctx) -> None:
 from ..selftest import V  # noqa: E402
 
 SELFTEST = [
+    V("E_titles no longer padded to the number of energy axes (seeded C16-m4)", ER,
+      "        if self.N_energies <= len(E_titles):\n            self.E_titles = E_titles[:self.N_energies]\n        else:\n            self.E_titles = E_titles + [\"???\"] * (self.N_energies - len(E_titles))\n",
+      "        self.E_titles = E_titles[:self.N_energies]\n", "fire", "R16.1"),
+    V("K__Result.mul_array scales the first k-block only (seeded C16-m3)", KB, "            data=[d * other_reshape for d in self.data_list],", "            data=self.data_list[0] * other_reshape,", "fire", "R16.3"),
     V("EnergyResult.__sub__ adds", ER, "        return self + (-1) * other\n", "        return self + other\n", "fire", "R16.3"),
     V("VoidResult.__sub__ loses the sign", RS, "        return (-1) * other\n", "        return other\n", "fire", "R16.3"),
     V("0 no longer neutral for EnergyResult.__add__", ER, "if other == 0 or other is None or (isinstance(other, VoidResult)):", "if other is None or (isinstance(other, VoidResult)):", "fire", "R16.3"),
